@@ -1,8 +1,10 @@
 import Pyunicorn.Lemmas.Access
 import Pyunicorn.Lemmas.WhileSafe
 import Pyunicorn.Lemmas.Binary64
+import Pyunicorn.Lemmas.LineIdx
 import Pyunicorn.Generated.StructC20
 import Pyunicorn.Generated.StructC20Pyx
+import Pyunicorn.Generated.StructC20Py
 /-!
 # C20 — compiled kernels never touch memory outside their arrays
 
@@ -1193,3 +1195,348 @@ theorem narrow_counters_census :
   decide
 
 end Pyunicorn.Access
+
+
+/-! # Round 4: the size arguments as the calling Python methods pass them
+
+`Generated/StructC20Py.lean` is regenerated on every run from `mutual_info.py`, `rainfall.py`,
+`surrogates.py` and `resistive_network.py` (translate/c20_py.py): for each integer the Python method
+hands to a raw-pointer Cython wrapper, where it takes it from.  The C routines trust these integers,
+so they must describe *the array that is passed* — not the object (`self.N`), whose size a caller of
+`calculate_similarity_measure(anomaly[:, :k])` is free to differ from. -/
+namespace Pyunicorn.Access
+open Pyunicorn.Generated.StructC20Py
+
+def sizeKind (rows : List SizeRow) (cy : String) : Option (String × String × Nat × Nat) :=
+  (rows.find? (fun r => r.1 == cy)).map (·.2)
+
+/-- in the current source
+ * `_cython_calculate_mutual_information` passes as `N`, `n_samples` the two axes of the (transposed)
+   array it passes;
+ * `spearman_corr` passes as `m`, `tmax` the axes of the ranked anomaly and rejects a mask of
+   another shape;
+ * the two surrogate tests pass the axes of `original_data` and reject surrogates of another shape;
+ * the current-flow methods pass `self.N`, and the Cython wrappers compare it with both axes of both
+   arrays they are given. -/
+theorem wrappers_sizes_agree :
+    sizeKind mi_pysizes "N" = some ("arr", "anomaly.1", 0, 0)
+    ∧ sizeKind mi_pysizes "n_samples" = some ("arr", "anomaly.0", 0, 1)
+    ∧ sizeKind spearman_pysizes "m" = some ("arr", "anomaly.0", 1, 0)
+    ∧ sizeKind spearman_pysizes "tmax" = some ("arr", "anomaly.1", 1, 1)
+    ∧ (0, 1) ∈ spearman_pychecks
+    ∧ sizeKind pearson_pysizes "N" = some ("arr", "original_data.0", 0, 0)
+    ∧ sizeKind pearson_pysizes "n_time" = some ("arr", "original_data.1", 0, 1)
+    ∧ (1, 0) ∈ pearson_pychecks
+    ∧ sizeKind tmi_pysizes "N" = some ("arr", "original_data.0", 0, 0)
+    ∧ sizeKind tmi_pysizes "n_time" = some ("arr", "original_data.1", 0, 1)
+    ∧ (1, 0) ∈ tmi_pychecks
+    ∧ sizeKind vcfb_pysizes "N" = some ("self", "N", 0, 0)
+    ∧ sizeKind ecfb_pysizes "N" = some ("self", "N", 0, 0)
+    ∧ vcfb_cychecks = [("admittance", 0, "N"), ("admittance", 1, "N"), ("R", 0, "N"), ("R", 1, "N")]
+    ∧ ecfb_cychecks = [("admittance", 0, "N"), ("admittance", 1, "N"), ("R", 0, "N"), ("R", 1, "N")] := by
+  refine ⟨by decide, by decide, by decide, by decide, by decide, by decide, by decide, by decide,
+    by decide, by decide, by decide, by decide, by decide, by decide, by decide⟩
+
+/-- the public methods that reach the worker (`calculate_similarity_measure`,
+`mutual_information`) pass the array only, so `n_bins` is the default of the signature, which is a
+valid bin count (this is why the `n_bins = 0` hole of the private worker is not public) -/
+theorem mi_public_nbins :
+    mi_forwarders = [("calculate_similarity_measure", 1), ("mutual_information", 1)]
+    ∧ mi_int_defaults = [("n_bins", 32)] := by decide
+
+/-- `MutualInfoClimateNetwork.calculate_similarity_measure(anomaly)` /
+`mutual_information(anomaly=…)` on an object with **any** number of nodes `self.N = objN`, for an
+anomaly array of **any** shape: safe or raises — because the sizes handed to the kernel are read
+off the generated table `mi_pysizes` and are those of the array itself.  (Hypotheses as in
+`miCall_rejects_or_safe`; discharged in `miObjWrapperCall_rejects_or_safe`.) -/
+theorem miObjCall_rejects_or_safe (objN N T : Nat) (nb : Int) (zdiv : Bool)
+    (scaling rmin : Option Rat) (d : Data) (hnb : 1 ≤ nb)
+    (hpos : ∀ i k sv mv v, scaling = some sv → rmin = some mv → d.at i k = some v →
+      0 ≤ sv * (v - mv)) :
+    miObjCall mi_pysizes objN N T nb zdiv scaling rmin d ≠ .oob := by
+  have h1 : resolveSize mi_pysizes "N" [[N, T]] objN = some N := by
+    simp [resolveSize, mi_pysizes]
+  have h2 : resolveSize mi_pysizes "n_samples" [[N, T]] objN = some T := by
+    simp [resolveSize, mi_pysizes]
+  unfold miObjCall
+  rw [h1, h2]
+  simp only [and_self, if_true]
+  exact miCall_rejects_or_safe N T nb zdiv scaling rmin d hnb hpos
+
+/-- the same from the normalised float64 array down to the kernel, no hypothesis on the data left:
+every array (NaN included), every monotone conversion double → float, every non-negative (or NaN /
+infinite) `float scaling`, every `self.N` -/
+theorem miObjWrapperCall_rejects_or_safe (rnd : Rat → Rat) (hmono : ∀ x y, x ≤ y → rnd x ≤ rnd y)
+    (objN N T : Nat) (nb : Int) (hnb : 1 ≤ nb) (sc : Option Rat) (hsc : ∀ s, sc = some s → 0 ≤ s)
+    (a : Data) : miObjWrapperCall rnd mi_pysizes objN N T nb sc a ≠ .oob := by
+  unfold miObjWrapperCall
+  apply miObjCall_rejects_or_safe _ _ _ _ _ _ _ _ hnb
+  intro i k sv mv v hs hm hv
+  rw [Data.at_map a (fun x => x.map rnd) rfl] at hv
+  cases hmin : optMin a.flat with
+  | none => simp [hmin] at hm
+  | some mn =>
+    cases hmax : optMax a.flat with
+    | none => simp [hmin, hmax] at hs
+    | some mx =>
+      simp only [hmin, hmax] at hs
+      simp only [hmin, Option.map_some, Option.some.injEq] at hm
+      cases hw : a.at i k with
+      | none => simp [hw] at hv
+      | some w =>
+        simp only [hw, Option.map_some, Option.some.injEq] at hv
+        obtain ⟨w', hw', hle⟩ := optMin_le _ mn hmin _ (Data.at_mem_flat a i k w hw)
+        cases hw'
+        subst hm; subst hv
+        have h1 : 0 ≤ rnd w - rnd mn := by
+          have := hmono mn w hle
+          grind
+        exact Rat.mul_nonneg (hsc sv hs) h1
+
+example : miObjWrapperCall id mi_pysizes 6 2 2 32 (some (1/2)) [[some 0, some 2], [some 1, some 2]]
+    = .safe := by decide +kernel
+example : miObjWrapperCall id mi_pysizes 1 2 2 32 (some 1) [[some 1, some 1], [some 1, some 1]]
+    = .raise := by decide +kernel
+
+/-- a method that passed `self.N` instead (the shape of seeded change C20-6): with an anomaly of
+fewer columns than the object has nodes the kernel reads past the array; with more columns it stays
+inside (and returns a matrix of the wrong size); with the object's own size nothing changes — which
+is why no existing test notices -/
+theorem miObjCall_selfN_oob_witness :
+    let rows : List SizeRow := [("n_samples", "arr", "anomaly.0", 0, 1), ("N", "self", "N", 0, 0)]
+    miObjCall rows 6 1 2 32 false (some (1/2)) (some 0) [[some 0, some 2]] = .oob
+    ∧ miObjCall rows 1 2 2 32 false (some (1/2)) (some 0) [[some 0, some 2], [some 1, some 2]] = .safe
+    ∧ miObjCall rows 2 2 2 32 false (some (1/2)) (some 0) [[some 0, some 2], [some 1, some 2]] = .safe := by
+  decide +kernel
+
+
+/-! ## the histogram range as the sources compute it -/
+
+/-- in the current source `_test_mutual_information` takes `range_min` / `range_max` as the
+minimum / maximum over **both** arrays and `scaling = 1/(range_max - range_min)`;
+`_cython_calculate_mutual_information` takes them from the transposed copy that reaches the kernel
+(seeded change C20-5, `surrogates.max()` inside `range_min`, breaks the first line) -/
+theorem range_terms_agree :
+    tmi_range_min = ("np.min", [("original_data", "min"), ("surrogates", "min")])
+    ∧ tmi_range_max = ("np.max", [("original_data", "max"), ("surrogates", "max")])
+    ∧ tmi_scaling = "1.0 / (range_max - range_min)"
+    ∧ mi_anomaly_last = "anomaly.T.copy()"
+    ∧ mi_range_min = "float(anomaly.min())" ∧ mi_range_max = "float(anomaly.max())"
+    ∧ mi_scaling = "1.0 / (range_max - range_min)" := by
+  refine ⟨by decide, by decide, by decide, by decide, by decide, by decide, by decide⟩
+
+/-- the model of `tmiCall` *is* the kernel verdict for the minimum / maximum over both arrays
+(after the wrapper's rejections) -/
+theorem tmiCall_eq_kernelVerdict (N T : Nat) (nb : Int) (dO dS : Data) (h1 : 1 ≤ nb)
+    (h2 : nb < (2 : Int) ^ 31) (h3 : N * T ≠ 0) :
+    tmiCall N T N T nb dO dS
+      = tmiKernelVerdict (optMin (dO.flat ++ dS.flat)) (optMax (dO.flat ++ dS.flat)) N T nb dO dS := by
+  unfold tmiCall tmiKernelVerdict
+  rw [if_neg (by omega), if_neg (by simp), if_neg (by omega), if_neg h3]
+
+/-- with the range read off the generated terms the kernel is safe on data where the surrogates
+reach below the original's minimum, and a `range_min` that leaves the surrogates' minimum out (the
+shape of seeded change C20-5: `np.min((original_data.min(), surrogates.max()))`) is out of bounds on
+the same data — a negative bin number -/
+theorem tmi_range_witness :
+    let dO : Data := [[some 0, some 1]]
+    let dS : Data := [[some (-2), some 1]]
+    let r := rangeFrom dO dS tmi_range_min.2 tmi_range_max.2
+    let r' := rangeFrom dO dS [("original_data", "min"), ("surrogates", "max")] tmi_range_max.2
+    tmiKernelVerdict r.1 r.2 1 2 4 dO dS = .safe
+    ∧ r = (optMin (dO.flat ++ dS.flat), optMax (dO.flat ++ dS.flat))
+    ∧ tmiKernelVerdict r'.1 r'.2 1 2 4 dO dS = .oob := by
+  decide +kernel
+
+end Pyunicorn.Access
+
+
+/-! # Round 4: `_line_dist` — the data-dependent subscripts of all RQA line histograms
+
+`Model/LineIdx.lean` lists every buffer subscript `_line_dist` evaluates, in program order, for an
+arbitrary recurrence predicate and an arbitrary missing-value mask; loop skeleton, index functions
+(`i2J_*`, `ij2I_*`) and the nine wrappers' arguments are the generated definitions. -/
+namespace Pyunicorn.LineIdx
+open Pyunicorn.Generated.StructC20Py
+
+/-- the model covers exactly the subscripts that occur in the source of `_line_dist` and of
+`metric_supremum` (a further subscript in the source breaks this) -/
+theorem line_dist_subscripts_covered :
+    ld_subscripts = [("M", "I"), ("M", "j"), ("R", "I, j"), ("hist", "k-1")]
+    ∧ ld_metric_loops = [("l", "dim")]
+    ∧ ld_metric_subscripts = [("E", "I, l"), ("E", "j, l")]
+    ∧ line_dist_wrappers.map (·.name) =
+      ["_vertline_dist", "_diagline_dist", "_white_vertline_dist", "_vertline_dist_sequential",
+       "_diagline_dist_sequential", "_vertline_dist_missingvalues", "_diagline_dist_missingvalues",
+       "_vertline_dist_sequential_missingvalues", "_diagline_dist_sequential_missingvalues"] := by
+  refine ⟨by decide, by decide, by decide, by decide⟩
+
+/-- the index functions each of the nine wrappers passes keep row and column inside `[0, n_time)`
+and the inner loop within `n_time` iterations — for **every** `n_time` (vertical lines: `I = i`,
+`j < N = n_time`; diagonals: `N = n_time - 1`, `j ≤ i < N`, `1 ≤ I = N - i + j ≤ N`) -/
+theorem geo_of_wrapper (w : LDWrap) (hw : w ∈ line_dist_wrappers) (n : Int) : Geo w n := by
+  simp only [line_dist_wrappers, List.mem_cons, List.not_mem_nil, or_false] at hw
+  rcases hw with rfl | rfl | rfl | rfl | rfl | rfl | rfl | rfl | rfl <;>
+  · intro i hi0 hi
+    simp only [ld_outer, ld_N, ld_inner, ld_I, i2J_vertline, i2J_diagline, ij2I_vertline,
+      ij2I_diagline, Bool.false_eq_true, if_false, if_true] at hi ⊢
+    refine ⟨by omega, by omega, ?_⟩
+    intro j hj0 hj
+    omega
+
+/-- **every subscript `_line_dist` evaluates is inside its buffer**, for each of the nine wrappers,
+every `n_time`, every embedding dimension, every recurrence matrix / embedding content (`line`) and
+every missing-value mask (`miss`): `R[I, j]` with `I, j ∈ [0, n_time)` (only for `dim = 0`),
+`E[I, l]`, `E[j, l]` with `l ∈ [0, dim)` (only for `dim ≠ 0`), `M[I]`, `M[j]` (only with
+missing-value handling) and `hist[k-1] ∈ [0, n_time)` — the line length `k` never exceeds the number
+of points visited in the current row, and a raised `missing_flag` means `k = 0`.  So these
+subscripts never raise IndexError on the public path and would be safe without the bounds check. -/
+theorem lineDist_in_bounds (w : LDWrap) (hw : w ∈ line_dist_wrappers) (n_time dim : Int)
+    (line : Int → Int → Bool) (miss : Int → Bool) :
+    ∀ e ∈ (lineDist w n_time dim line miss).1, e.within w.mv n_time dim := by
+  unfold lineDist
+  exact (outer_spec (n := n_time) (dim := dim) w (geo_of_wrapper w hw n_time) line miss _
+    (fun i hi => mem_ints.mp hi)).1
+
+/-- after the kernel `k = 0` and `missing_flag = False` (nothing is left uncounted) -/
+theorem lineDist_final_state (w : LDWrap) (hw : w ∈ line_dist_wrappers) (n_time dim : Int)
+    (line : Int → Int → Bool) (miss : Int → Bool) :
+    (lineDist w n_time dim line miss).2 = ⟨0, false⟩ := by
+  unfold lineDist
+  exact (outer_spec (n := n_time) (dim := dim) w (geo_of_wrapper w hw n_time) line miss _
+    (fun i hi => mem_ints.mp hi)).2
+
+/-- with buffers of the extents the Python callers pass (`hist`: `n_time`; `R`: `n_time × n_time`
+in matrix mode; `E`: `n_time × dim` in sequential mode; `M`: `n_time` with missing values — the
+`*_null` arrays of the wrappers are never subscripted) the executable model never answers
+IndexError, whatever the buffers contain -/
+theorem lineDist_never_raises (w : LDWrap) (hw : w ∈ line_dist_wrappers) (n_time dim : Int) (x : Ext)
+    (Rm Em : List (List Int)) (eps2 : Int) (Mm : List Int)
+    (hh : n_time ≤ x.h0) (hR : dim = 0 → n_time ≤ x.r0 ∧ n_time ≤ x.r1)
+    (hE : dim ≠ 0 → n_time ≤ x.e0 ∧ dim ≤ x.e1) (hM : w.mv = true → n_time ≤ x.m0) :
+    outcome w n_time dim x Rm Em eps2 Mm ≠ none := by
+  unfold outcome
+  dsimp only
+  rw [if_pos]
+  · simp
+  rw [List.all_eq_true]
+  intro e he
+  have h := lineDist_in_bounds w hw n_time dim _ _ e he
+  cases e with
+  | R I j =>
+    obtain ⟨hd, a, b, c, d⟩ := h
+    obtain ⟨r0, r1⟩ := hR hd
+    simp only [Ev.ok, inr, Bool.and_eq_true, decide_eq_true_eq]
+    omega
+  | M i =>
+    obtain ⟨hm, a, b⟩ := h
+    have := hM hm
+    simp only [Ev.ok, inr, Bool.and_eq_true, decide_eq_true_eq]
+    omega
+  | E r c =>
+    obtain ⟨hd, a, b, c', d⟩ := h
+    obtain ⟨e0, e1⟩ := hE hd
+    simp only [Ev.ok, inr, Bool.and_eq_true, decide_eq_true_eq]
+    omega
+  | H i =>
+    obtain ⟨a, b⟩ := h
+    simp only [Ev.ok, inr, Bool.and_eq_true, decide_eq_true_eq]
+    omega
+
+
+/-! ### the nine wrappers under the contracts of `translate/c20_contracts.json`
+
+(what `recurrence_plot.py` passes; validated on every observed call).  The buffers a wrapper does
+not receive are its own `*_null` arrays of shape `(1, 0)` / `(0,)`. -/
+open Pyunicorn.Generated.StructC20Pyx in
+theorem ldw_length : line_dist_wrappers.length = 9 := by decide
+open Pyunicorn.Generated.StructC20Pyx in
+/-- `_vertline_dist` never raises IndexError under its contract, whatever its buffers contain -/
+theorem ts_vertline_dist_fine (v : String → Int) (h : ts_vertline_dist_contract v)
+    (Rm Em : List (List Int)) (eps2 : Int) (Mm : List Int) :
+    outcome (line_dist_wrappers[0]'(by rw [ldw_length]; omega)) (v "n_time") (0)
+      ⟨v "R_0", v "R_1", 0, 1, 0, v "hist_0"⟩ Rm Em eps2 Mm ≠ none := by
+  obtain ⟨h1, h2, h3⟩ := h
+  exact lineDist_never_raises _ (List.getElem_mem _) _ _ _ _ _ _ _ h1 (fun _ => ⟨h2, h3⟩) (fun hd => absurd rfl hd) (fun hm => by simp [line_dist_wrappers] at hm)
+open Pyunicorn.Generated.StructC20Pyx in
+/-- `_diagline_dist` never raises IndexError under its contract, whatever its buffers contain -/
+theorem ts_diagline_dist_fine (v : String → Int) (h : ts_diagline_dist_contract v)
+    (Rm Em : List (List Int)) (eps2 : Int) (Mm : List Int) :
+    outcome (line_dist_wrappers[1]'(by rw [ldw_length]; omega)) (v "n_time") (0)
+      ⟨v "R_0", v "R_1", 0, 1, 0, v "hist_0"⟩ Rm Em eps2 Mm ≠ none := by
+  obtain ⟨h1, h2, h3⟩ := h
+  exact lineDist_never_raises _ (List.getElem_mem _) _ _ _ _ _ _ _ h1 (fun _ => ⟨h2, h3⟩) (fun hd => absurd rfl hd) (fun hm => by simp [line_dist_wrappers] at hm)
+open Pyunicorn.Generated.StructC20Pyx in
+/-- `_white_vertline_dist` never raises IndexError under its contract, whatever its buffers contain -/
+theorem ts_white_vertline_dist_fine (v : String → Int) (h : ts_white_vertline_dist_contract v)
+    (Rm Em : List (List Int)) (eps2 : Int) (Mm : List Int) :
+    outcome (line_dist_wrappers[2]'(by rw [ldw_length]; omega)) (v "n_time") (0)
+      ⟨v "R_0", v "R_1", 0, 1, 0, v "hist_0"⟩ Rm Em eps2 Mm ≠ none := by
+  obtain ⟨h1, h2, h3⟩ := h
+  exact lineDist_never_raises _ (List.getElem_mem _) _ _ _ _ _ _ _ h1 (fun _ => ⟨h2, h3⟩) (fun hd => absurd rfl hd) (fun hm => by simp [line_dist_wrappers] at hm)
+open Pyunicorn.Generated.StructC20Pyx in
+/-- `_vertline_dist_sequential` never raises IndexError under its contract, whatever its buffers contain -/
+theorem ts_vertline_dist_sequential_fine (v : String → Int) (h : ts_vertline_dist_sequential_contract v)
+    (Rm Em : List (List Int)) (eps2 : Int) (Mm : List Int) :
+    outcome (line_dist_wrappers[3]'(by rw [ldw_length]; omega)) (v "n_time") (v "dim")
+      ⟨1, 0, 0, v "E_0", v "E_1", v "hist_0"⟩ Rm Em eps2 Mm ≠ none := by
+  obtain ⟨h1, h2, h3, h4⟩ := h
+  exact lineDist_never_raises _ (List.getElem_mem _) _ _ _ _ _ _ _ h1 (fun hd => by omega) (fun _ => ⟨h2, h3⟩) (fun hm => by simp [line_dist_wrappers] at hm)
+open Pyunicorn.Generated.StructC20Pyx in
+/-- `_diagline_dist_sequential` never raises IndexError under its contract, whatever its buffers contain -/
+theorem ts_diagline_dist_sequential_fine (v : String → Int) (h : ts_diagline_dist_sequential_contract v)
+    (Rm Em : List (List Int)) (eps2 : Int) (Mm : List Int) :
+    outcome (line_dist_wrappers[4]'(by rw [ldw_length]; omega)) (v "n_time") (v "dim")
+      ⟨1, 0, 0, v "E_0", v "E_1", v "hist_0"⟩ Rm Em eps2 Mm ≠ none := by
+  obtain ⟨h1, h2, h3, h4⟩ := h
+  exact lineDist_never_raises _ (List.getElem_mem _) _ _ _ _ _ _ _ h1 (fun hd => by omega) (fun _ => ⟨h2, h3⟩) (fun hm => by simp [line_dist_wrappers] at hm)
+open Pyunicorn.Generated.StructC20Pyx in
+/-- `_vertline_dist_missingvalues` never raises IndexError under its contract, whatever its buffers contain -/
+theorem ts_vertline_dist_missingvalues_fine (v : String → Int) (h : ts_vertline_dist_missingvalues_contract v)
+    (Rm Em : List (List Int)) (eps2 : Int) (Mm : List Int) :
+    outcome (line_dist_wrappers[5]'(by rw [ldw_length]; omega)) (v "n_time") (0)
+      ⟨v "R_0", v "R_1", v "M_0", 1, 0, v "hist_0"⟩ Rm Em eps2 Mm ≠ none := by
+  obtain ⟨h1, h2, h3, h4⟩ := h
+  exact lineDist_never_raises _ (List.getElem_mem _) _ _ _ _ _ _ _ h1 (fun _ => ⟨h2, h3⟩) (fun hd => absurd rfl hd) (fun _ => h4)
+open Pyunicorn.Generated.StructC20Pyx in
+/-- `_diagline_dist_missingvalues` never raises IndexError under its contract, whatever its buffers contain -/
+theorem ts_diagline_dist_missingvalues_fine (v : String → Int) (h : ts_diagline_dist_missingvalues_contract v)
+    (Rm Em : List (List Int)) (eps2 : Int) (Mm : List Int) :
+    outcome (line_dist_wrappers[6]'(by rw [ldw_length]; omega)) (v "n_time") (0)
+      ⟨v "R_0", v "R_1", v "M_0", 1, 0, v "hist_0"⟩ Rm Em eps2 Mm ≠ none := by
+  obtain ⟨h1, h2, h3, h4⟩ := h
+  exact lineDist_never_raises _ (List.getElem_mem _) _ _ _ _ _ _ _ h1 (fun _ => ⟨h2, h3⟩) (fun hd => absurd rfl hd) (fun _ => h4)
+open Pyunicorn.Generated.StructC20Pyx in
+/-- `_vertline_dist_sequential_missingvalues` never raises IndexError under its contract, whatever its buffers contain -/
+theorem ts_vertline_dist_sequential_missingvalues_fine (v : String → Int) (h : ts_vertline_dist_sequential_missingvalues_contract v)
+    (Rm Em : List (List Int)) (eps2 : Int) (Mm : List Int) :
+    outcome (line_dist_wrappers[7]'(by rw [ldw_length]; omega)) (v "n_time") (v "dim")
+      ⟨1, 0, v "M_0", v "E_0", v "E_1", v "hist_0"⟩ Rm Em eps2 Mm ≠ none := by
+  obtain ⟨h1, h2, h3, h4, h5⟩ := h
+  exact lineDist_never_raises _ (List.getElem_mem _) _ _ _ _ _ _ _ h1 (fun hd => by omega) (fun _ => ⟨h2, h3⟩) (fun _ => h5)
+open Pyunicorn.Generated.StructC20Pyx in
+/-- `_diagline_dist_sequential_missingvalues` never raises IndexError under its contract, whatever its buffers contain -/
+theorem ts_diagline_dist_sequential_missingvalues_fine (v : String → Int) (h : ts_diagline_dist_sequential_missingvalues_contract v)
+    (Rm Em : List (List Int)) (eps2 : Int) (Mm : List Int) :
+    outcome (line_dist_wrappers[8]'(by rw [ldw_length]; omega)) (v "n_time") (v "dim")
+      ⟨1, 0, v "M_0", v "E_0", v "E_1", v "hist_0"⟩ Rm Em eps2 Mm ≠ none := by
+  obtain ⟨h1, h2, h3, h4, h5⟩ := h
+  exact lineDist_never_raises _ (List.getElem_mem _) _ _ _ _ _ _ _ h1 (fun hd => by omega) (fun _ => ⟨h2, h3⟩) (fun _ => h5)
+
+/-- `_vertline_dist`, `_diagline_dist` as generated -/
+def ldVert : LDWrap := ⟨"_vertline_dist", i2J_vertline, ij2I_vertline, false, false, false, true, ("", "")⟩
+def ldDiag : LDWrap := ⟨"_diagline_dist", i2J_diagline, ij2I_diagline, true, false, false, true, ("", "")⟩
+
+/-- non-vacuity: the diagonal kernel on a 3 × 3 all-recurrent matrix visits `R[2, 0]`, `R[1, 0]`,
+`R[2, 1]` and counts lines of lengths 1 and 2 -/
+example : (lineDist ldDiag 3 0 (fun _ _ => true) (fun _ => false)).1
+    = [.R 2 0, .H 0, .R 1 0, .R 2 1, .H 1] := by decide +kernel
+/-- sharpness: a histogram one entry short, or an index function shifted by one, is an IndexError -/
+example : outcome ldVert 2 0 ⟨2, 2, 0, 1, 0, 1⟩ [[1, 1], [1, 1]] [] 0 []
+    = none := by decide +kernel
+example : outcome ldVert 2 0 ⟨2, 2, 0, 1, 0, 2⟩ [[1, 1], [1, 1]] [] 0 []
+    = some [0, 2] := by decide +kernel
+example : outcome { ldDiag with ij2I := fun i j N => N - i + j + 1 }
+    3 0 ⟨3, 3, 0, 1, 0, 3⟩ [[1, 1, 1], [1, 1, 1], [1, 1, 1]] [] 0 [] = none := by decide +kernel
+
+end Pyunicorn.LineIdx
